@@ -17,6 +17,7 @@ M: every variant's kernel is model-checked by TLC under ALL instruction orders
 from __future__ import annotations
 
 import multiprocessing as mp
+import re
 from typing import Any
 
 import numpy as np
@@ -192,7 +193,10 @@ def main(tier: str, only: list[dict] | None = None) -> int:
                                "exc": pr.get("exc", ""), "what": pr["what"][:70],
                                "where": (pr.get("where") or "").strip().rpartition(" in ")[2][:60],
                                "named_array_tagged": bool((pr.get("tags") or {}).get(
-                                   "user_on_named"))})
+                                   "user_on_named")),
+                               "loopy_rule_arity_clash": bool(re.match(
+                                   r"RuntimeError: Rule '_pt_subst\w*' invoked with \d+ "
+                                   r"arguments", pr["what"]))})
     kmap = {k["id"]: by_id[k["id"].split("|")[0]] for k in kernels}
     c01.check_kernels(run, kernels, kmap)
     run.coverage.update({
